@@ -36,6 +36,7 @@ def check(ck):
     ck.count("rule_classes", len(w.rule_classes), 26)
     with ck.rule("R1"):
         _wiring(ck, repo, w)
+        _no_implicit_none(ck, repo, w)
     with ck.rule("R2"):
         _dfs_discipline(ck, repo)
     with ck.rule("R3"):
@@ -95,6 +96,63 @@ def _wiring(ck, repo, w):
         ck.ob(f"{where.name}: keywords of the {s.rule} site are parameters of the rule (or swallowed by **)", not extra or has_kwarg, where, s.call,
               construct=f"site:{where.name}:{s.rule}:accepted")
         ck.ob(f"{s.rule}.validate tolerates the other context keys (**catch-all)", has_kwarg, m, m.node, construct=f"rule:{s.rule}:catch-all")
+
+
+# parsers that answer None by design, with the guard of that answer
+OPTIONAL_PARSERS = {"_parse_value": "value_ast", "_parse_selection_set": "selection_set_ast"}
+
+
+def _must_answer(f, w) -> bool:
+    """The callers use what this function answers: annotated with a type, the `validate` of a rule (its result is
+    extended into the error list), or a helper whose call is used as a value somewhere in its class."""
+    a = f.node.returns
+    if a is not None and unparse(a) != "None":
+        return True
+    if f.cls is not None and f.cls.name in {c.name for c in w.rule_classes.values()}:
+        if f.name == "validate":
+            return True
+        for m in f.cls.methods.values():
+            mv = FuncView(m)
+            for c in mv.calls(f.name):
+                if isinstance(c.func, ast.Attribute) and unparse(c.func.value) == "self" and not isinstance(mv.parent(c), ast.Expr):
+                    return True
+    return False
+
+
+def _no_implicit_none(ck, repo, w):
+    """A transformer or a rule that answers a value on one path answers one on every path: a path that falls off the
+    end (or `return None`) hands None to the caller - `errors.extend(None)`, a None selection - and the document is
+    refused by a crash instead of a verdict."""
+    fs = list(w.trans.funcs.values())
+    for c in w.rule_classes.values():
+        fs += list(c.methods.values())
+    n = 0
+    for f in sorted(fs, key=lambda f: f.short):
+        fv = FuncView(f)
+        cfg = fv.cfg
+        kinds = []
+        for nid, succ in cfg.succ.items():
+            for m, lab in succ:
+                if m != cfg.return_exit.id:
+                    continue
+                nd = cfg.nodes[nid]
+                if nd.kind == "stmt" and isinstance(nd.ast, ast.Return):
+                    v = nd.ast.value
+                    kinds.append(("none" if v is None or (isinstance(v, ast.Constant) and v.value is None) else "value", nd.ast))
+                else:
+                    kinds.append(("fallthrough", nd.ast))
+        if not (_must_answer(f, w) or any(k == "value" for k, _ in kinds)):
+            continue
+        n += 1
+        bad = [(k, a) for k, a in kinds if k != "value"]
+        if f.name in OPTIONAL_PARSERS:
+            g = OPTIONAL_PARSERS[f.name]
+            ok = len(bad) == 1 and bad[0][0] == "none" and set(fv.conditions(bad[0][1])) == {(g, "F")}
+            ck.ob(f"{f.name}: None exactly for an absent `{g}`", ok, f, bad[0][1] if bad else f.node, construct=f"returns-value:{f.qualname}:optional")
+            continue
+        ck.ob(f"{f.qualname}: every exit returns a value", not bad, f, bad[0][1] if bad and bad[0][1] is not None else f.node, construct=f"returns-value:{f.qualname}",
+              detail=str([k for k, _ in bad]))
+    ck.count("value_returning_parsers_and_rule_methods", n, 70)
 
 
 def _dfs_discipline(ck, repo):
@@ -180,6 +238,40 @@ def _scoped_context(ck, repo, w):
               fv.stmt_of(bad[0]) if bad else f.node, construct=f"scope:{f.name}:no-self-read",
               detail="bookkeeping keyed by the overwritten value compares a fragment with itself instead of with its parent type")
     ck.count("scoped_context_transformers", n, 3)
+    # the value each scope installs: the type the selections below it are selections *of*
+    SCOPE = {
+        "_parse_operation_definition": ("_get_operation_type_name(operation_type, validators.schema)", set()),
+        "_parse_fragment_definition": ("type_cond.name.value", set()),
+        "_parse_inline_fragment": ("type_cond.name.value", {("type_cond", "T")}),
+        "_parse_field": ("get_schema_field_type_name(parent_type_name, name.value, validators.schema)", set()),
+    }
+    for fname, (want, conds) in SCOPE.items():
+        f = w.trans.funcs[fname]
+        fv = FuncView(f)
+        wr = [nd for f2, nd in w.ctx_writes.get(key, []) if f2 is f and isinstance(nd, ast.Assign) and unparse(nd.value) not in ("parent_type_name",)]
+        ok = len(wr) == 1 and unparse(wr[0].value) == want and set(fv.conditions(wr[0])) == conds
+        ck.ob(f"{fname}: the scope it opens is `{want}`" + (" exactly when a type condition is given" if conds else ""), ok, f, wr[0] if wr else f.node,
+              construct=f"scope:{fname}:value", detail=str(sorted(fv.conditions(wr[0]))) if wr else None)
+    st = {unparse(nd.targets[0]): nd.value for nd in walk_no_nested(w.trans.funcs["_parse_inline_fragment"].node) if isinstance(nd, ast.Assign) and isinstance(nd.targets[0], ast.Name)}
+    from ..q import ifexp_parts
+    ck.ob("_parse_inline_fragment: the type condition is the parsed one when the fragment has one, else None",
+          ifexp_parts(st.get("type_cond")) == ("inline_fragment_ast['typeCondition']", "_parse_named_type(inline_fragment_ast['typeCondition'])", "None"),
+          w.trans.funcs["_parse_inline_fragment"], st.get("type_cond"), construct="scope:_parse_inline_fragment:type-cond")
+    st = {unparse(nd.targets[0]): nd.value for nd in walk_no_nested(w.trans.funcs["_parse_fragment_definition"].node) if isinstance(nd, ast.Assign) and isinstance(nd.targets[0], ast.Name)}
+    ck.ob("_parse_fragment_definition: the type condition is the parsed one", unparse(st.get("type_cond")) == "_parse_named_type(fragment_definition_ast['typeCondition'])",
+          w.trans.funcs["_parse_fragment_definition"], st.get("type_cond"), construct="scope:_parse_fragment_definition:type-cond")
+    g = w.trans.funcs["_get_operation_type_name"]
+    r = FuncView(g).returns()
+    ck.ob("_get_operation_type_name reads the schema's root type name of that operation kind", len(r) == 1 and
+          unparse(r[0].value) == f"getattr({g.positional_params[1]}, f'{{{g.positional_params[0]}.lower()}}_operation_name')", g, g.node, construct="scope:operation-root")
+    h = repo.func(RULES_PKG + "utils.py", "get_schema_field_type_name")
+    hv = FuncView(h)
+    hp = h.positional_params
+    rr = hv.returns()
+    main = [x for x in rr if not any(contains(hh, x) for hh in hv.handlers())]
+    inh = [x for x in rr if any(contains(hh, x) for hh in hv.handlers())]
+    ok = len(main) == 1 and unparse(main[0].value) == f"reduce_type(find_field({hp[0]}, {hp[1]}, {hp[2]}).gql_type)" and len(inh) == 1 and unparse(inh[0].value) == "None"
+    ck.ob("get_schema_field_type_name: the named type of the field of that parent (None for an unknown field)", ok, h, h.node, construct="scope:field-type")
 
 
 def _stateless_rules(ck, repo, w):
@@ -474,6 +566,45 @@ def rule_tables(ck, repo, w):
     ok = len(apps) == 1 and ("_NODE_TO_DIRECTIVE_LOCATION_MAP[node_type] in schema_directive.locations", "F") in mv.conditions(apps[0])
     ck.ob("directives-are-in-valid-locations: error iff the location is not among the directive's declared locations", ok, m, apps[0] if apps else m.node,
           construct="table:locations:test")
+
+    ok = len(apps) == 1 and set(mv.conditions(apps[0])) == {("schema.has_directive(directive.name.value)", "T"), ("_NODE_TO_DIRECTIVE_LOCATION_MAP[node_type] in schema_directive.locations", "F")}
+    ck.ob("directives-are-in-valid-locations: judged for every known directive of the node (unknown ones are 5.7.1's)", ok and
+          len([l for l in mv.loops() if isinstance(l, ast.For) and unparse(l.iter) == "node.directives"]) == 1, m, apps[0] if apps else m.node, construct="table:locations:known-only")
+    nt = [n for n in walk_no_nested(m.node) if isinstance(n, ast.Assign) and unparse(n.targets[0]) == "node_type"]
+    by = {unparse(n.value): set(mv.conditions(n)) for n in nt}
+    ck.ob("directives-are-in-valid-locations: the key is the node's class, or the operation kind for an operation definition",
+          by == {"type(node)": set(), "node.operation_type.lower()": {("isinstance(node, OperationDefinitionNode)", "T")}}, m, nt[0] if nt else m.node,
+          construct="table:locations:key", detail=str(by))
+    sd = [n for n in walk_no_nested(m.node) if isinstance(n, ast.Assign) and unparse(n.targets[0]) == "schema_directive"]
+    ck.ob("directives-are-in-valid-locations: the declared locations are those of the directive of that name", len(sd) == 1 and
+          unparse(sd[0].value) == "schema.find_directive(directive.name.value)", m, sd[0] if sd else m.node, construct="table:locations:definition")
+
+    # ---- fragments must be used / spread targets defined
+    m = w.validate_method("fragment-must-be-used")
+    r = FuncView(m).returns()
+    comp = r[0].value if len(r) == 1 and isinstance(r[0].value, ast.ListComp) else None
+    ok = comp is not None and len(comp.generators) == 1 and unparse(comp.generators[0].iter) == "fragments" and \
+        [unparse(i) for i in comp.generators[0].ifs] == [f"not find_nodes_by_name(fragment_spreads, {unparse(comp.generators[0].target)}.name.value)"]
+    ck.ob("fragment-must-be-used: a fragment is reported iff no spread of the document carries its name", ok, m, r[0] if r else m.node, construct="table:fragment-used")
+    m2 = w.validate_method("fragment-spread-target-defined")
+    m2v = FuncView(m2)
+    sets = [c for c in m2v.calls("append") if "erronous_speads" in unparse(c.func.value)]
+    lp = [l for l in m2v.loops() if isinstance(l, ast.For) and unparse(l.iter) == "fragment_spreads"]
+    ok = len(sets) == 1 and len(lp) == 1 and contains(lp[0], sets[0]) and set(m2v.conditions(sets[0])) == {(f"find_nodes_by_name(fragments, {unparse(lp[0].target)}.name.value)", "F")} and \
+        not any(isinstance(n, (ast.Break, ast.Continue, ast.Return)) for n in walk_no_nested(lp[0]))
+    r2 = m2v.returns()
+    ok = ok and len(r2) == 1 and unparse(r2[0].value) == "self._to_errors(erronous_speads, path)"
+    ck.ob("fragment-spread-target-defined: a spread is reported iff no fragment of the document carries its name; every spread is looked at", ok, m2, sets[0] if sets else m2.node,
+          construct="table:spread-target")
+    te = repo.func(RULES_PKG + "fragment_spread_target_defined.py", "FragmentSpreadTargetDefined._to_errors")
+    r3 = FuncView(te).returns()
+    ok = len(r3) == 1 and isinstance(r3[0].value, ast.ListComp) and unparse(r3[0].value.generators[0].iter) == f"{te.positional_params[1]}.items()" and not r3[0].value.generators[0].ifs
+    ck.ob("fragment-spread-target-defined: one error per unknown name", ok, te, te.node, construct="table:spread-target:errors")
+    for mm in (m, m2):
+        mmv = FuncView(mm)
+        d = [n for n in walk_no_nested(mm.node) if isinstance(n, ast.Assign) and unparse(n.targets[0]) == "fragment_spreads" and unparse(n.value) == "[]"]
+        ck.ob(f"{mm.cls.name}: a document without spreads means the empty list of spreads, nothing else", len(d) == 1 and set(mmv.conditions(d[0])) == {("fragment_spreads", "F")}, mm,
+              d[0] if d else mm.node, construct=f"table:{mm.cls.name}:default")
 
     # ---- all variable usages are allowed
     _variable_usage_tables(ck, repo)
